@@ -5,7 +5,7 @@
     case, the REAL [Address.Hex()] for every address) and, per step, the operation with its environment
     inputs, the observed outcome class, the raw dump of the three store prefixes + the bank metadata, and
     the answers of [GetTokenPairID] / [MintingEnabled] for every token string of the case. *)
-From Teleport Require Import Base.Bytes Base.Outcome Base.AList Model.Registry.
+From Teleport Require Import Base.Bytes Base.Outcome Base.AList Model.Registry Model.RegistryExport.
 
 Record ostep := {
   os_op : op;
@@ -15,7 +15,10 @@ Record ostep := {
   os_toks : list bytes;                (* token strings queried after the step *)
   os_ids : list bytes;                 (* GetTokenPairID(tok), [] = nil *)
   os_me : list (nat * (nat * nat));    (* (token index, denom index, index of the returned pair in the dump) *)
-  os_me_bad : nat                      (* MintingEnabled returned a pair that is not the stored one *)
+  os_me_bad : nat;                     (* MintingEnabled returned a pair that is not the stored one *)
+  os_export : nat                      (* ExportGenesis of the registry after the step: 0 = validates and re-imports into an
+                                          empty registry to the same three prefixes, 1 = GenesisState.Validate refuses it,
+                                          2 = panic, 4 = the re-import differs, 5 = export is not prefix 0x01 in key order *)
 }.
 
 Record rcase := {
@@ -70,6 +73,9 @@ Fixpoint number {A} (i : nat) (l : list A) : list (nat * A) :=
 Definition triple_eqb (a b : nat * (nat * nat)) : bool :=
   Nat.eqb (fst a) (fst b) && Nat.eqb (fst (snd a)) (fst (snd b)) && Nat.eqb (snd (snd a)) (snd (snd b)).
 
+Fixpoint nodup_b (l : list bytes) : bool :=
+  match l with [] => true | x :: r => negb (existsb (bytes_eqb x) r) && nodup_b r end.
+
 (** ** Model versus implementation *)
 
 Section Cmp.
@@ -93,13 +99,17 @@ Section Cmp.
 
   (* kinds: 1 outcome class, 2 pair records, 3 address index, 4 denom index, 5 bank metadata, 6 enable flag,
      7 GetTokenPairID, 8 MintingEnabled, 9 the model asked the oracle something the implementation never
-     computed, 10 unknown keys in the aggregate store *)
+     computed, 10 unknown keys in the aggregate store, 11 GenesisState.Validate of the exported registry (model's verdict on
+     its own state versus the code's), 12 the branch classifier of Model/RegistryExport.v disagrees with the model's step
+     (internal consistency of the coverage measurement), 13 an observed value of GetID / Address.Hex violates the oracle
+     hypotheses of the theorems, 14 an executed operation violates the environment hypotheses ([admissible]) *)
   Fixpoint cmp_steps (i : nat) (s : state) (l : list ostep) : list (nat * nat) :=
     match l with
     | [] => []
     | o :: l' =>
         let '(s', cl) := step hid canon evmd head s (os_op o) in
         let impl := os_after o in
+        if negb (Nat.eqb (branch_class (branch evmd canon s (os_op o))) cl) then [(i, 12%nat)] else
         if negb (Nat.eqb cl 9 || Nat.eqb cl (os_class o)) then [(i, 1%nat)] else
         if has_miss s' then [(i, 9%nat)] else
         if negb (list_eqb (kv_eqb pair_eqb) (st_pairs s') (st_pairs impl)) then [(i, 2%nat)] else
@@ -110,20 +120,56 @@ Section Cmp.
         if negb (Nat.eqb (os_other o) 0) then [(i, 10%nat)] else
         if negb (list_eqb bytes_eqb (map (get_token_pair_id s') (os_toks o)) (os_ids o)) then [(i, 7%nat)] else
         if negb (Nat.eqb (os_me_bad o) 0 && list_eqb triple_eqb (model_me s' (os_toks o)) (os_me o)) then [(i, 8%nat)] else
+        if negb (Bool.eqb (export_validates head s') (negb (Nat.eqb (os_export o) 1))) then [(i, 11%nat)] else
         cmp_steps (S i) s' l'
     end.
 End Cmp.
 
+(** the environment hypotheses of the theorems ([admissible]) as a Boolean: the address RegisterCoin's deployment
+    creates is a 20-byte address not in the ERC20 index; a genesis is imported into an empty registry *)
+Definition admissible_b (s : state) (o : op) : bool :=
+  match o with
+  | ORegisterCoin _ deploy _ => Nat.eqb (length deploy) 20 && negb (ahas deploy (st_erc20 s))
+  | OGenesis _ _ =>
+      match st_pairs s, st_erc20 s, st_denom s with [], [], [] => true | _, _, _ => false end
+  | _ => true
+  end.
+
+Fixpoint adm_steps (hid : bytes -> bytes -> bytes) (canon : bytes -> bytes) (evmd : bytes) (i : nat) (s : state) (l : list ostep) : list (nat * nat) :=
+  match l with
+  | [] => []
+  | o :: l' => (if admissible_b s (os_op o) then [] else [(i, 14%nat)]) ++
+               adm_steps hid canon evmd (S i) (fst (step hid canon evmd head s (os_op o))) l'
+  end.
+
+(** the oracle hypotheses of the theorems, checked on every OBSERVED value of the real functions: Address.Hex(a) is a
+    hex address that parses back to the 20-byte [a]; GetID is never empty and takes different values on different
+    (hex-address text, denomination) arguments *)
+Definition oracle_ok (c : rcase) : bool :=
+  forallb (fun e => Nat.eqb (length (fst e)) 20 && is_hex_address (snd e) && bytes_eqb (addr_of (snd e)) (fst e)) (c_canon c) &&
+  forallb (fun e => match snd (snd e) with [] => false | _ => true end) (c_idtab c) &&
+  nodup_b (map (fun e => snd (snd e)) (filter (fun e => is_hex_address (fst e)) (c_idtab c))).
+
 Definition cmp_case (c : rcase) : list (nat * nat) :=
+  (if oracle_ok c then [] else [(0%nat, 13%nat)]) ++
+  adm_steps (hid_of (c_idtab c)) (canon_of (c_canon c)) (c_evm_denom c) 0 empty_state (c_steps c) ++
   cmp_steps (hid_of (c_idtab c)) (canon_of (c_canon c)) (c_evm_denom c) 0 empty_state (c_steps c).
 
 Definition mismatches (cs : list rcase) : list (nat * (nat * nat)) :=
   flat_map (fun ic => map (fun m => (fst ic, m)) (cmp_case (snd ic))) (number 0 cs).
 
-(** ** Monitors: the property itself, evaluated on the IMPLEMENTATION's dumps alone. *)
+(** ** Which branch of the code every step took (according to the model, which agrees with the code on every
+    compared step): the measured reach of the generator *)
+Fixpoint br_steps (hid : bytes -> bytes -> bytes) (canon : bytes -> bytes) (evmd : bytes) (s : state) (l : list ostep) : list nat :=
+  match l with
+  | [] => []
+  | o :: l' => branch evmd canon s (os_op o) :: br_steps hid canon evmd (fst (step hid canon evmd head s (os_op o))) l'
+  end.
 
-Fixpoint nodup_b (l : list bytes) : bool :=
-  match l with [] => true | x :: r => negb (existsb (bytes_eqb x) r) && nodup_b r end.
+Definition branches (cs : list rcase) : list nat :=
+  flat_map (fun c => br_steps (hid_of (c_idtab c)) (canon_of (c_canon c)) (c_evm_denom c) empty_state (c_steps c)) cs.
+
+(** ** Monitors: the property itself, evaluated on the IMPLEMENTATION's dumps alone. *)
 
 Section Mon.
   Variable hid : bytes -> bytes -> bytes.
@@ -214,14 +260,15 @@ Definition explicit_b (before : ostep) (o : ostep) (id : bytes) : bool :=
   end.
 
 (* convert back: a denomination that converted before the step still converts after it, through a pair that
-   still lists every denomination of the old one, unless the step explicitly removed / disabled that pair *)
+   still lists every denomination of the old one IN THE SAME ORDER (new ones appended), unless the step explicitly
+   removed / disabled that pair *)
 Definition convert_back_b (before o : ostep) : bool :=
   forallb (fun m =>
     match nth_error (os_toks before) (fst m), nth_error (os_toks before) (fst (snd m)), nth_error (st_pairs (os_after before)) (snd (snd m)) with
     | Some t, Some d, Some (id, p) =>
         negb (bytes_eqb t d) || explicit_b before o id ||
         existsb (fun ikv => let p' := snd (snd ikv) in
-                   me_has o d d (fst ikv) && forallb (fun x => existsb (bytes_eqb x) (p_denoms p')) (p_denoms p) &&
+                   me_has o d d (fst ikv) && list_eqb bytes_eqb (p_denoms p) (firstn (length (p_denoms p)) (p_denoms p')) &&
                    N.eqb (p_owner p') (p_owner p))
                 (number 0 (st_pairs (os_after o)))
     | _, _, _ => true
@@ -233,7 +280,9 @@ Definition meta_kept_b (before o : ostep) : bool :=
 (* kinds: 21 registry not self-consistent, 22 a registered denomination reads as a hex address, 23 a pair is
    not resolvable by its address / one of its denominations through GetTokenPairID, 24 MintingEnabled
    succeeded for a token/denomination outside the returned pair, 25 MintingEnabled refused a listed
-   denomination of an enabled pair, 26 convert-back lost, 27 bank metadata removed, 28 panic *)
+   denomination of an enabled pair, 26 convert-back lost, 27 bank metadata removed, 28 panic, 29 the exported genesis of the
+   registry does not validate / does not re-import to the same registry, 30 a registered denomination is not a valid bank
+   denomination or an address key is not 20 bytes long *)
 Fixpoint mon_steps (hid : bytes -> bytes -> bytes) (i : nat) (before : option ostep) (l : list ostep) : list (nat * nat) :=
   match l with
   | [] => []
@@ -245,6 +294,8 @@ Fixpoint mon_steps (hid : bytes -> bytes -> bytes) (i : nat) (before : option os
       (if resolvable_b o then [] else [(i, 23%nat)]) ++
       (if me_sound_b o then [] else [(i, 24%nat)]) ++
       (if me_complete_b o then [] else [(i, 25%nat)]) ++
+      (if Nat.eqb (os_export o) 0 then [] else [(i, 29%nat)]) ++
+      (if valid_denoms_b s && addr_keys_b s then [] else [(i, 30%nat)]) ++
       match before with
       | Some b => (if convert_back_b b o then [] else [(i, 26%nat)]) ++ (if meta_kept_b b o then [] else [(i, 27%nat)])
       | None => []
